@@ -5,7 +5,7 @@
 # usage: tools/sensitivity.sh [name-filter] ; results in /tmp/sensitivity.log
 set -u
 FILTER="${1:-}"
-LOG=/tmp/sensitivity.log
+LOG=${SENS_LOG:-/tmp/sensitivity.log}
 : > $LOG
 for d in "$(cd "$(dirname "$0")/.." && pwd)"/selfmut/*${FILTER}*/; do
   name=$(basename $d); prop=$(cat $d/prop)
